@@ -31,7 +31,6 @@ func process1Map(obj map[string]any, mergeFrom *Document, mergeFromDocs []*Docum
 	// Not copying obj before merge preserves the layering behavior that
 	// tests/merge-race relies upon.
 	if v, found := obj["$merge"]; found {
-		delete(obj, "$merge")
 		return process1MapMerge(obj, mergeFrom, mergeFromDocs, v, depth)
 	}
 
@@ -76,6 +75,12 @@ func process1MapMerge(obj map[string]any, mergeFrom *Document, mergeFromDocs []*
 	if err != nil {
 		return nil, err
 	}
+
+	// The directive is consumed only after the reference has been resolved:
+	// if the reference leads back to obj (directly or through other $merge
+	// maps) the copy still carries the $merge, the expansion repeats and the
+	// depth limit reports the cycle instead of it being accepted silently.
+	delete(obj, "$merge")
 
 	next, err := mergeMap(obj, in)
 	if err != nil {
